@@ -145,6 +145,21 @@ theorem b613_newline_style_independent (table : List Char) (e : Env) (s : LStr) 
     b613 table { e with lines := uniLines (toCR s) } = b613 table { e with lines := uniLines s } := by
   rw [uniLines_toCRLF s h, uniLines_toCR s h]; exact ⟨rfl, rfl⟩
 
+/-- **reading an already-normalised text changes nothing**: the lines of the newline-translated text are the lines of the text — a source that was
+decoded once with universal newlines (standard input wrapped twice, a file re-read from its decoded form) is split into the same lines -/
+theorem lines_renormalisation_stable (s : LStr) : translate (translate s) = translate s ∧ uniLines (translate s) = uniLines s := by
+  have h : translate (translate s) = translate s := translateGo_noCR _ (translateGo_noCR_out s false)
+  exact ⟨h, by simp only [uniLines, h]⟩
+
+/-- … and B613 decides the same on it -/
+theorem b613_renormalisation_stable (table : List Char) (e : Env) (s : LStr) :
+    b613 table { e with lines := uniLines (translate s) } = b613 table { e with lines := uniLines s } := by
+  rw [(lines_renormalisation_stable s).2]
+
+/-- why `lines_newline_style_independent` is stated for one style per file: a lone-CR line end directly followed by an LF line end *is* a CRLF line end —
+two empty lines written `\r` then `\n` are one line end to every universal-newline reader (and to the Python tokenizer) -/
+example : uniLines ['a', '\r', '\n', 'b'] = [['a', '\n'], ['b']] ∧ uniLines ['a', '\n', '\n', 'b'] = [['a', '\n'], ['\n'], ['b']] := by decide
+
 /-- **nothing of the text escapes the scan**: the lines concatenate to the (newline-translated) text, no line holds a `\r`, `\n` only ends lines,
 and line `i` starts right after the `i`-th line end — the line numbering of the parser -/
 theorem lines_partition_text (s : LStr) :
